@@ -157,6 +157,7 @@ type vTransport struct {
 	order    []string // "write" / "shutdown" sequence
 	attempts []Address
 	onWrite  func(b []byte, a Address)
+	onDial   func(a Address, timeout time.Duration) (net.Conn, error)
 	owner    *Memberlist
 	flagAtShutdown bool // the shutdown flag was already raised when the transport was asked to shut down
 	shutdownGate chan struct{} // when set, Shutdown blocks here (a slow transport teardown)
@@ -189,6 +190,9 @@ func (t *vTransport) DialTimeout(addr string, timeout time.Duration) (net.Conn, 
 }
 func (t *vTransport) DialAddressTimeout(a Address, timeout time.Duration) (net.Conn, error) {
 	t.dials++
+	if t.onDial != nil {
+		return t.onDial(a, timeout)
+	}
 	if t.dialHang {
 		// a host that never answers the connection attempt: the dial gives up when its own timeout expires
 		time.Sleep(timeout)
